@@ -497,3 +497,29 @@ def chunk_creators(ctx):
         out = set(base)
     _creators_memo[key] = out
     return out
+
+
+def strip_pass(e):
+    """remove Option/Result pass-through combinators (ok_or_else, map_err, context, inspect_err, ...) around a value: what they hand on
+    in the Ok/Some case is the payload of their receiver"""
+    if not isinstance(e, tuple):
+        return e
+    if e and e[0] == "call" and len(e) > 2 and e[2] and _PASS_OK.search(str(e[1])):
+        return strip_pass(e[2][0])
+    return tuple(strip_pass(x) if isinstance(x, tuple) else x for x in e)
+
+
+def contains_src(g, e, pred, depth=0):
+    """contains(), also looking through what a nested value may come from (helper results built in several places, locals with several
+    stores, pass-through combinators).  e must be UN-stripped provenance (call identities are needed to find the callee instances)."""
+    if depth > 8:
+        return False
+    if pred(strip_ids(e) if isinstance(e, tuple) else e):
+        return True
+    if not isinstance(e, tuple) or not e:
+        return False
+    if e[0] in ("okval", "ret", "var"):
+        for x in value_sources(g, e):
+            if x != e and contains_src(g, x, pred, depth + 1):
+                return True
+    return any(contains_src(g, x, pred, depth) for x in e if isinstance(x, tuple))
